@@ -9,7 +9,7 @@ PK = {"lvl2": 1312, "lvl3": 1952, "lvl5": 2592, "ml_dsa_44": 1312, "ml_dsa_65": 
 SK = {"lvl2": 2528, "lvl3": 4000, "lvl5": 4864, "ml_dsa_44": 2560, "ml_dsa_65": 4032, "ml_dsa_87": 4896}
 RULE = ("seeded key generation for the KAT seeds (OpenSSL 3.5.5 ML-DSA vectors, the repo's Dilithium vectors), all-00, all-FF and "
         "random seeds x 6 sets, through sign::<set>::keypair and <set>::Keypair::generate; unseeded generation with the RNG "
-        "tap serving scripted bytes. distinct_nontrivial = distinct (set, seed) pairs with an ok answer.")
+        "tap serving scripted bytes. distinct_nontrivial = distinct (set, seed) pairs with an ok answer. Twin requests: key generation into buffers 1/33/64 bytes longer must write the same keys; output buffers pre-filled with a byte that changes per call.")
 EXPLANATION = ('Props/C04.lean: keypair_is_spec_function - the keys keypair returns satisfy KeygenSpec.IsKeyGen (FIPS 204 Alg. 6 / Dilithium 3.1 Gen as a relation over specification-level objects) and that relation determines pk and sk; keygen_relation (t1 2^13 + t0 = A s1 + s2, ranges, no overflow). The tie: model = code byte for byte on KAT, edge, boundary-searched and random seeds; model = OpenSSL 3.5.5 / NIST vectors.')
 ASSUMPTIONS = ["kat/mldsa_keygen_openssl.json was produced once by OpenSSL 3.5.5 (node 22) — provenance in the file",
                "kat/dilithium_repo_kats.json are the NIST round-3.1 vectors embedded in the repo's tests"]
